@@ -216,7 +216,16 @@ def run(ctx):
             deadline = [r for r in recs if r["got"].get("deadline")]
             if deadline:
                 raise vlib.Infra("C19: %d runs hit the wall-clock deadline (machine overloaded?)" % len(deadline))
-            vlib.judge_and_confirm(ctx, cases, recs, lambda cs: execute_dirs(ctx, list(cs)), lambda rs: judge(ctx, rs))
+            calls = [0]
+
+            def judge_fn(rs):
+                bad = judge(ctx, rs)
+                calls[0] += 1
+                if calls[0] > 1:
+                    # confirmation run: a failure that is a known finding does not confirm a different first failure
+                    bad = [b for b in bad if not ctx.known_match(b[2])]
+                return bad
+            vlib.judge_and_confirm(ctx, cases, recs, lambda cs: execute_dirs(ctx, list(cs)), judge_fn)
             t3 = time.time()
             vlib.log("C19: judged in %.0fs" % (t3 - t2))
             validate_traces(ctx, recs)
